@@ -1114,6 +1114,7 @@ def render_immediate_rule(ctx, R):
 
 
 MUTANTS = [
+    ('sse-cmp-pseudo-op-revived', 'miasmx/arch/ia32_arch.py', "'cmpsd', 'cmpss'] and len(args)==2 \\\n", "'cmpsd', 'cmpss'] and len(args)==3 \\\n", 'C01.D13'),
     ('pinsrw-mem-dword', 'miasmx/arch/ia32_arch.py', "    '#p#insrb':   x86_afs.u08, '#p#insrw':   x86_afs.u16,", "    '#p#insrb':   x86_afs.u08,", 'C01.D5'),
     ('movddup-m128', 'miasmx/arch/ia32_arch.py', "                                    or sse_prefix == [0xF2]: # (movddup)", "                                    or False:", 'C01.D5'),
     ('pushaw-not-renamed', 'miasmx/arch/ia32_arch.py', "                'pushad': x86mndb.pushaw_m, 'popad': x86mndb.popaw_m,\n", "                'popad': x86mndb.popaw_m,\n", 'C01.D10'),
